@@ -341,37 +341,95 @@ func waitingTests(r *core.Run, fn *ssa.Function) ([]guard.Atom, map[ssa.Value]bo
 func ruleAccrualClock(r *core.Run, id string) {
 	const rewardField = "market/types.Worker.Reward.Amount"
 	const clockField = "market/types.Worker.LastRewardAt"
-	n := 0
-	for _, f := range r.P.SortedFuncs(r.ConsensusFuncs()) {
-		if r.P.IsGenerated(f) || len(f.Blocks) == 0 {
-			continue
+	// An interprocedural typestate walk: state "pending" = an accrual has been added to the reward and the clock has
+	// not been moved since. Helpers outside the vocabulary are walked in the context of each call (a parameter is
+	// "hot" when the argument handed in contains the elapsed-interval expression).
+	type sumKey struct {
+		fn      *ssa.Function
+		pending bool
+		hot     string
+	}
+	type summary struct {
+		outs map[bool]bool
+		bad  ssa.Instruction
+		acc  int
+	}
+	memo := map[sumKey]*summary{}
+	var walk func(f *ssa.Function, pending bool, hot map[int]bool, depth int) *summary
+	walk = func(f *ssa.Function, pending bool, hot map[int]bool, depth int) *summary {
+		hk := ""
+		for i := range f.Params {
+			if hot[i] {
+				hk += fmt.Sprintf("%d,", i)
+			}
 		}
+		key := sumKey{f, pending, hk}
+		if s, ok := memo[key]; ok {
+			return s
+		}
+		sum := &summary{outs: map[bool]bool{}}
+		memo[key] = sum
 		res := r.Resolver(f)
-		type at struct {
-			b *ssa.BasicBlock
-			i int
+		isHot := func(v ssa.Value) bool {
+			t := res.Of(v).String()
+			if strings.Contains(t, ".LastRewardAt") {
+				return true
+			}
+			for i := range f.Params {
+				if hot[i] && strings.Contains(t, fmt.Sprintf("#%d", i)) {
+					// crude but sound enough: the value mentions a hot parameter
+					rest := t
+					tok := fmt.Sprintf("#%d", i)
+					for {
+						k := strings.Index(rest, tok)
+						if k < 0 {
+							break
+						}
+						end := k + len(tok)
+						if end >= len(rest) || rest[end] < '0' || rest[end] > '9' {
+							return true
+						}
+						rest = rest[end:]
+					}
+				}
+			}
+			return false
 		}
-		var accr []*ssa.Store
-		var accrAt []at
-		clock := map[*ssa.BasicBlock][]int{}
-		persist := map[*ssa.BasicBlock][]int{}
-		for _, b := range f.Blocks {
-			for i, ins := range b.Instrs {
+		type st struct {
+			b       *ssa.BasicBlock
+			pending bool
+		}
+		seen := map[st]bool{}
+		q := []st{{f.Blocks[0], pending}}
+		seen[q[0]] = true
+		for len(q) > 0 && sum.bad == nil {
+			cur := q[0]
+			q = q[1:]
+			pend := []bool{cur.pending}
+			for _, ins := range cur.b.Instrs {
+				if sum.bad != nil {
+					break
+				}
 				switch x := ins.(type) {
 				case *ssa.Store:
 					switch fieldPath(x.Addr) {
 					case rewardField:
-						if t := res.Of(x.Val).String(); strings.Contains(t, ".LastRewardAt") {
-							accr = append(accr, x)
-							accrAt = append(accrAt, at{b, i})
+						if isHot(x.Val) {
+							sum.acc++
+							for k := range pend {
+								pend[k] = true
+							}
 						}
 					case clockField:
-						if normT(res.Of(x.Val).String()) == "sdk.Context.BlockHeight()" {
-							clock[b] = append(clock[b], i)
+						if tt := normT(res.Of(x.Val).String()); tt == "sdk.Context.BlockHeight()" || isHeightParam(r, f, x.Val, hot) {
+							for k := range pend {
+								pend[k] = false
+							}
 						}
 					}
 				case ssa.CallInstruction:
-					if _, cs := res.CalleeName(x.Common()); len(cs) > 0 && persistsRecord(r, cs, "market/types.Worker") {
+					_, cs := res.CalleeName(x.Common())
+					if len(cs) > 0 && persistsRecord(r, cs, "market/types.Worker") {
 						uses := false
 						for _, a := range x.Common().Args {
 							if shortTypeName(a.Type()) == "market/types.Worker" {
@@ -379,68 +437,127 @@ func ruleAccrualClock(r *core.Run, id string) {
 							}
 						}
 						if uses {
-							persist[b] = append(persist[b], i)
+							for _, pv := range pend {
+								if pv {
+									sum.bad = ins
+								}
+							}
 						}
+						continue
+					}
+					h := x.Common().StaticCallee()
+					if h == nil || h == f || !r.P.Transparent(h) || depth >= 3 || x.Common().IsInvoke() {
+						continue
+					}
+					// only helpers that can touch a worker matter
+					touches := false
+					for _, a := range x.Common().Args {
+						tn := shortTypeName(a.Type())
+						if tn == "market/types.Worker" {
+							touches = true
+						}
+					}
+					if !touches {
+						continue
+					}
+					hh := map[int]bool{}
+					for ai, a := range x.Common().Args {
+						if ai < len(h.Params) && isHot(a) {
+							hh[ai] = true
+						}
+					}
+					var next []bool
+					nm := map[bool]bool{}
+					for _, pv := range pend {
+						hs := walk(h, pv, hh, depth+1)
+						sum.acc += hs.acc
+						if hs.bad != nil && sum.bad == nil {
+							sum.bad = hs.bad
+						}
+						for o := range hs.outs {
+							if !nm[o] {
+								nm[o] = true
+								next = append(next, o)
+							}
+						}
+					}
+					if len(next) > 0 {
+						pend = next
+					}
+				}
+			}
+			if _, isRet := cur.b.Instrs[len(cur.b.Instrs)-1].(*ssa.Return); isRet {
+				for _, pv := range pend {
+					sum.outs[pv] = true
+				}
+			}
+			for _, nx := range cur.b.Succs {
+				for _, pv := range pend {
+					s2 := st{nx, pv}
+					if !seen[s2] {
+						seen[s2] = true
+						q = append(q, s2)
 					}
 				}
 			}
 		}
-		for k, st := range accr {
-			n++
-			key := core.Key(id, r.KeyName(f), fmt.Sprintf("accrual#%d", k+1))
-			a := accrAt[k]
-			// search forward from the accrual for a persist that is reached without passing a clock store
-			var bad []*ssa.BasicBlock
-			type state struct {
-				b    *ssa.BasicBlock
-				from int
-			}
-			seen := map[*ssa.BasicBlock]bool{}
-			prev := map[*ssa.BasicBlock]*ssa.BasicBlock{}
-			q := []state{{a.b, a.i + 1}}
-			for len(q) > 0 && bad == nil {
-				s := q[0]
-				q = q[1:]
-				// first event in this block at or after s.from
-				ev, evIdx := "", len(s.b.Instrs)
-				for _, i := range clock[s.b] {
-					if i >= s.from && i < evIdx {
-						ev, evIdx = "clock", i
-					}
-				}
-				for _, i := range persist[s.b] {
-					if i >= s.from && i < evIdx {
-						ev, evIdx = "persist", i
-					}
-				}
-				if ev == "persist" {
-					for x := s.b; x != nil; x = prev[x] {
-						bad = append([]*ssa.BasicBlock{x}, bad...)
-						if x == a.b {
-							break
-						}
-					}
-					break
-				}
-				if ev == "clock" {
-					continue
-				}
-				for _, nx := range s.b.Succs {
-					if !seen[nx] {
-						seen[nx] = true
-						prev[nx] = s.b
-						q = append(q, state{nx, 0})
-					}
-				}
-			}
-			if bad == nil {
-				r.Discharge(id, key, r.P.Pos(st.Pos()), "every store of the worker after the accrual is preceded by LastRewardAt := current height")
-			} else {
-				r.Violate(id, key, r.P.Pos(st.Pos()), r.P.Name(f)+" adds the income accrued since Worker.LastRewardAt to Worker.Reward and stores the worker on a path that does not set LastRewardAt to the current height first: the next settlement accrues the same interval again, so recorded rewards (paid from the market escrow) exceed what the orders deposited", pathDesc(r, bad))
-			}
+		return sum
+	}
+	n := 0
+	for _, f := range r.P.SortedFuncs(r.ConsensusFuncs()) {
+		if r.P.IsGenerated(f) || len(f.Blocks) == 0 || (r.P.Transparent(f) && len(r.Owners(f)) > 0) {
+			continue
+		}
+		sum := walk(f, false, nil, 0)
+		if sum.acc == 0 {
+			continue
+		}
+		n += sum.acc
+		key := core.Key(id, r.P.Name(f), "accruals")
+		if sum.bad == nil {
+			r.Discharge(id, key, r.P.FuncPos(f), "every store of the worker after an accrual is preceded by LastRewardAt := current height")
+		} else {
+			r.Violate(id, key, r.P.Pos(sum.bad.Pos()), r.P.Name(f)+" adds the income accrued since Worker.LastRewardAt to Worker.Reward and stores the worker on a path that does not set LastRewardAt to the current height first: the next settlement accrues the same interval again, so recorded rewards (paid from the market escrow) exceed what the orders deposited")
 		}
 	}
 	r.Floor("worker_accruals", n, 3)
+}
+
+// isHeightParam: the value is a parameter of a helper that receives the current block height (the caller passes
+// ctx.BlockHeight(), or a local holding it) — decided at the helper's call sites.
+func isHeightParam(r *core.Run, f *ssa.Function, v ssa.Value, _ map[int]bool) bool {
+	p, ok := v.(*ssa.Parameter)
+	if !ok {
+		return false
+	}
+	idx := -1
+	for i, q := range f.Params {
+		if q == p {
+			idx = i
+		}
+	}
+	if idx < 0 {
+		return false
+	}
+	n := 0
+	for _, caller := range r.P.CG.In[f] {
+		for _, site := range r.P.CG.Sites[caller] {
+			for _, c := range site.Callees {
+				if c != f || site.Instr.Common().IsInvoke() {
+					continue
+				}
+				args := site.Instr.Common().Args
+				if idx >= len(args) {
+					return false
+				}
+				n++
+				if normT(r.Resolver(caller).Of(args[idx]).String()) != "sdk.Context.BlockHeight()" {
+					return false
+				}
+			}
+		}
+	}
+	return n > 0
 }
 
 // ---------------------------------------------------------------- settled orders lose their shards
